@@ -63,6 +63,7 @@ type Model struct {
 
 	eventHandler func(vaxis.Event)
 	events       chan vaxis.Event
+	pending      []vaxis.Event
 	focused      int32
 	graphics     []*Image
 	timer        *time.Timer
@@ -180,6 +181,7 @@ func (vt *Model) StartWithSize(cmd *exec.Cmd, width int, height int) error {
 					return
 				default:
 					vt.update(seq)
+					vt.deliverEvents()
 				}
 			case ev := <-vt.events:
 				vt.eventHandler(ev)
@@ -314,8 +316,25 @@ func (vt *Model) String() string {
 	return str.String()
 }
 
+// postEvent queues an event raised while the model is being updated (the
+// lock is held). The goroutine which raises events is also the one which
+// delivers them, so they cannot go through a channel it would have to drain
+// itself: a third bell in a row blocked it for ever
 func (vt *Model) postEvent(ev vaxis.Event) {
-	vt.events <- ev
+	vt.pending = append(vt.pending, ev)
+}
+
+// deliverEvents hands the queued events to the event handler, in order, with
+// the lock released
+func (vt *Model) deliverEvents() {
+	vt.mu.Lock()
+	evs := vt.pending
+	vt.pending = nil
+	handler := vt.eventHandler
+	vt.mu.Unlock()
+	for _, ev := range evs {
+		handler(ev)
+	}
 }
 
 func (vt *Model) Attach(fn func(ev vaxis.Event)) {
@@ -342,6 +361,7 @@ func (vt *Model) recover() {
 	ret.Write(debug.Stack())
 
 	vt.postEvent(EventPanic(fmt.Errorf(ret.String())))
+	vt.deliverEvents()
 	vt.Close()
 }
 
